@@ -47,3 +47,32 @@ Proof.
   apply decode_encode. rewrite Forall_forall in Hrec. apply Hrec.
   destruct Hsuf as (p & Hp). rewrite Hp. apply in_or_app. right; exact Hc.
 Qed.
+
+Lemma bb_run_app : forall a st c,
+  bb_run st (a ++ c) = let '(st1, xs) := bb_run st a in let '(st2, ys) := bb_run st1 c in (st2, xs ++ ys).
+Proof.
+  induction a as [|o t IH]; intros st c; cbn [app bb_run].
+  - destruct (bb_run st c) as (st2, ys). reflexivity.
+  - destruct (bb_step st o) as (st1, x). rewrite IH.
+    destruct (bb_run st1 t) as (st2, xs). destruct (bb_run st2 c) as (st3, ys). reflexivity.
+Qed.
+
+(* "a dump taken at any moment": whatever is logged before (pre) and whatever happens afterwards (post, any mix of
+   log calls and dumps), the dump taken in between holds the records of an unbroken run of the latest calls of pre,
+   ending with the very last one *)
+Theorem bb_dump_at_any_moment : forall S maxline n R pre post, size_ok S -> Forall (call_ok S maxline n) pre ->
+  Forall (fun c => bb_reserve maxline (r_fn (lc_hdr c)) <= R) pre ->
+  exists kept,
+    suffix kept pre /\ (pre <> [] -> kept <> []) /\
+    (forall l, suffix l pre -> Z.of_nat (length l) * (R + 16) <= S -> suffix l kept) /\
+    nth (length pre) (snd (bb_run (bb_open S) (map (lc_op maxline) pre ++ BDump n :: post))) BoClosed =
+    BoDump (map (fun c => bb_encode (lc_rec maxline c)) kept).
+Proof.
+  intros S maxline n R pre post Hs Hok HR.
+  destruct (bb_keeps_latest S maxline n R pre Hs Hok HR) as (b & kept & Hrun & Hsuf & Hne & Hfit & Hdump).
+  exists kept. repeat match goal with |- _ /\ _ => split end; try assumption.
+  rewrite bb_run_app. rewrite Hrun. cbn [bb_run bb_step].
+  destruct (bb_run (Some b) post) as (st2, ys). cbn [snd].
+  rewrite app_nth2 by (rewrite map_length; lia). rewrite map_length, Nat.sub_diag. cbn [nth].
+  rewrite Hdump. reflexivity.
+Qed.
